@@ -653,8 +653,15 @@ class Translator:
         self.records[name] = []     # placeholder against recursion
         fp = float_params(st['gparams'])
         fields = []
+        # the FULL record: every field whose type is in the translated subset (numbers, bool, Option, tuples,
+        # float arrays, nested structs of the crate, enums of the crate, other builders), whether or not a
+        # guard looks at it - so that Spec.v / Corr.v keep compiling when a guard stops or starts looking at
+        # a field; only the theorems about that guard may then break
         for fn, ft in st['fields']:
-            d = self.map_type(crate, ft, fp, simple=True)
+            try:
+                d = self.map_type(crate, ft, fp)
+            except TranslationError:
+                d = None
             if d is not None:
                 fields.append((fn, d))
         self.records[name] = fields
@@ -856,9 +863,16 @@ class Translator:
             if meth == 'contains' and d[0] == 'range' and len(args) == 1:
                 x, dx = self.expr(im, crate, args[0], env)
                 self.want_float(im, dx, 'contains')
-                if not (d[1] == dx and d[2] == dx):
+                lo, hi = t
+                if d[1] == ('fltlit',):
+                    lo = self.lit_float(im, lo, dx)
+                elif d[1] != dx:
                     raise TranslationError('%s: range bounds and item of different types' % im.target)
-                return '(range_incl_contains %s %s %s)' % (t[0], t[1], x), ('bool',)
+                if d[2] == ('fltlit',):
+                    hi = self.lit_float(im, hi, dx)
+                elif d[2] != dx:
+                    raise TranslationError('%s: range bounds and item of different types' % im.target)
+                return '(range_incl_contains %s %s %s)' % (lo, hi, x), ('bool',)
             if meth in ('as_ref', 'clone', 'borrow', 'iter', 'to_owned', 'as_ref') and not args:
                 return t, d
             if meth == 'unwrap' and not args and d[0] == 'flt':
